@@ -145,7 +145,12 @@ class Siblings:
             return self._terms[key]
         cfg = self.cfgs[sibling]
         slicer = Slicer(self.sym, cfg.module, cfg.subject, cls)
-        items = slicer.slice(cfg.func.body)
+        try:
+            items = slicer.slice(cfg.func.body)
+        except AnalysisError as e:  # (dispatch.Unsliceable: the function is no isinstance chain any more)
+            out = {"_undecided": str(e), "_trace": [], "_items": [], "_interp": None}
+            self._terms[key] = out
+            return out
         it = S.SeqInterp(cfg, slicer, cls.name)
         try:
             it.run(items)
@@ -180,7 +185,10 @@ def marker_part_terms(sib: "Siblings"):
         cfg2.outputs = {"PART": cfg.outputs["PART"]}
         slicer = Slicer(sib.sym, cfg2.module, cfg2.subject, mk)
         it = S.SeqInterp(cfg2, slicer, "SubqueryMarker")
-        it.run(slicer.slice(cfg2.func.body))
+        try:
+            it.run(slicer.slice(cfg2.func.body))
+        except AnalysisError:
+            return None  # (a sibling is no isinstance dispatch any more: no terms, the interpreted rules decide)
         out[name] = S.normalise(_rename_subject(it.output("PART"), cfg2.subject), "SubqueryMarker")
     return out
 
